@@ -22,9 +22,11 @@ RET = 'RET_OK'
 SCHEMES = [{'p1': 'x', 'p2': 'xy', 'p3': 'xyz', 'p4': 'wxyz', 'zz': 'zz', 'na': 'na'},
            {'p1': 'signature', 'p2': 'method', 'p3': 'params', 'p4': 'exclude', 'zz': 'kwargs', 'na': 'na'}]
 CONC, ABS, KEYS, NAMES = {}, {}, [], []
+_SCHEME = [0]
 
 
 def set_scheme(k):
+    _SCHEME[0] = k
     CONC.clear()
     CONC.update(SCHEMES[k])
     ABS.clear()
@@ -64,6 +66,20 @@ def to_abstract(ev):
     return out
 
 
+class _Sentinel:
+    """a default value that has no JSON representation (the usual `UNSET = object()` idiom)"""
+
+    def __repr__(self):
+        return 'DEFAULT'
+
+
+SENT = _Sentinel()
+
+
+def current_default():
+    return SENT if _SCHEME[0] == 1 else DEFAULT
+
+
 class Ctx:
     pass
 
@@ -74,6 +90,8 @@ CTX = Ctx()
 def a_val(v):
     if v is CTX:
         return 'CTX'
+    if v is SENT:
+        return 'DEFAULT'
     if isinstance(v, str) and (v in ('v1', 'v2', 'v3', 'v4', 'v5', DEFAULT) or v.startswith('n_')):
         return v
     return 'other:' + type(v).__name__
@@ -146,7 +164,7 @@ def make(sig, flavour, as_method=False, cached=True):
         return _CACHE[key]
     names = [p['name'] for p in sig]
     src_params = param_src(sig)
-    ns = {'DEFAULT': DEFAULT, '_log': _dispatch_log}
+    ns = {'DEFAULT': current_default(), '_log': _dispatch_log}
     locs = 'dict(' + ', '.join('%s=%s' % (n, n) for n in names) + ')'
     if as_method:
         src = 'def m(self%s):\n    return _log(%s, self)\n' % (', ' + src_params if src_params else '', locs)
@@ -235,10 +253,13 @@ def run(ascn, loop):
     ev.append(d)
 
     # ---- the real thing
+    holder = {}
+    static = flavour == 'view' and (h // 4) % 2 == 1       # the view inherits the method as a static method of a plain base class
+
     def log(loc, self_):
         vctx = 'na'
         if flavour == 'view':
-            c = getattr(self_, '_ctx', 'missing')
+            c = getattr(holder['V'], 'last_ctx', 'missing') if static else getattr(self_, '_ctx', 'missing')
             vctx = 'CTX' if c is CTX else ('none' if c is None else 'bad')
         e = {'ev': 'Exec'}
         e.update(observe(sig, loc, vctx))
@@ -247,21 +268,30 @@ def run(ascn, loop):
 
     _CURRENT['log'] = log
     # the exclusion predicate looks at everything it is given: an unannotated parameter of that name carrying the marker default
-    pred = (lambda name, ann, default: name == ctx['xname'] and ann is inspect.Parameter.empty and default == DEFAULT) \
+    dflt = current_default()
+    pred = (lambda name, ann, default: name == ctx['xname'] and ann is inspect.Parameter.empty and (default is dflt or default == dflt)) \
         if ctx['xname'] != 'na' else None
     is_async = flavour == 'coro'
     disp = AsyncDispatcher() if is_async else Dispatcher()
     target = disp.registry if scn['route'] == 'direct' else MethodRegistry()
     if flavour == 'view':
-        m, src = make(sig, flavour, as_method=True, cached=pred is None)
+        m, src = make(sig, 'func' if static else flavour, as_method=not static, cached=pred is None)
         if pred:
             m = validators.BaseValidator(exclude_param=pred).validate(m)
 
-        class V(ViewMixin):
+        class Handlers:
+            pass
+
+        class V(ViewMixin, Handlers):
             def __init__(self, context=None):
                 super().__init__()
                 self._ctx = context
-        V.m = m
+                type(self).last_ctx = context
+        holder['V'] = V
+        if static:
+            Handlers.m = staticmethod(m)
+        else:
+            V.m = m
         if ctx['mode'] == 'view':
             # the name under which the view takes the context has nothing to do with the parameters of its methods -
             # also when a method happens to have a parameter of that very name
